@@ -30,6 +30,7 @@ CHECKS = {
         text=(
             "Integration level: one part (evolution segment or matching, real interpreted kernels) is computed on the sequential path and under SimPool for several widths (incl. negative core counts resolved against a simulated cpu count) and seeded schedules; results must be bitwise equal. "
             "Runner level: a baseline solve on one core is compared bitwise, target by target, with solves of every permutation of the targets, every proper non-empty subset, and the same card on simulated pools. "
+            "Integration-level cases use 2-8 point grids (incl. sizes that are not multiples of the pool width), negative / larger-than-grid core counts and a small share of QCD x QED cards; one run per case injects a transient fault (OSError / MemoryError / FloatingPointError / ValueError) inside ONE pool worker: the computation must raise or still return the sequential result. "
             "The thorough tier additionally compares a sample against the real multiprocessing (fork) Pool to validate the stub."
         ),
         note="SimPool models multiprocessing.Pool at item granularity with pickled transport; per-worker process-global state and killed workers are not modelled. Error arrays are compared as a probe only.",
@@ -80,6 +81,7 @@ CHECKS = {
             "After each faulted run an independent archive reader decides: session raised -> target path absent / logically identical to its previous complete content; fault absorbed -> equals the fault-free result; "
             "then one clean re-run on the same path must succeed and reproduce the fault-free result (bounded liveness). Enumeration per workload is complete in the thorough tier; workloads themselves are sampled. "
             "Workloads also include EKO.deepcopy and ekobox.utils.ekos_product (in place / to a new path), and 30% run with the temp area 'on another file system' (cross-directory renames fail with EXDEV). "
+            "Further fault modes: a SECOND fault on events that only exist because of the first one (error handling, fallbacks, clean-up code), faults inside pool workers for real-physics workloads on 2-3 cores, garbage collection at the end of every simulated session (finalizers run at a defined instant), and detection of state a failed session leaves behind in the process (a later run diverging from the reference trace is followed by a fault-free run, which must still succeed). "
             "A second stage runs multi-session store histories (create / puts / metadata, parts, recipe edits / close / reopen ...) twice - fault-free to record the trace, then with 1-3 faults drawn from it: an operation failing through an injected fault kills its session, the user restarts, and at every such point the archive must hold exactly the last committed content (crash recovery across sessions, checked with the persistent-map model and the independent reader)."
         ),
         note="Faults land at seam boundaries and traced Python lines, not inside C calls; no power-loss model (eko never fsyncs); stub physics in most workloads; interrupts that land after the final os.replace are accepted as 'committed'.",
@@ -92,7 +94,9 @@ CHECKS = {
         text=(
             "Seeded histories (create/put/overwrite/read/unload/context/membership/approx/iterate/items/close/reopen ro+rw/abandon) over a pool of 3-6 evolution points with ulp-apart, within- and outside-tolerance pairs are executed "
             "in lock step on a real EKO and on a model 'dictionary made persistent on close'; after every operation the visible key set (iteration, evolgrid, mu2grid, membership of every pool key) must equal the model's, every read value must be bitwise the last written one, "
-            "absent reads must raise, approx must agree (unique / none / ambiguous); a final audit re-reads the archive with an independent reader. Short histories are over-sampled; this is sampling, not the bounded-exhaustive enumeration the quantifier mentions."
+            "absent reads must raise, approx must agree (unique / none / ambiguous); a final audit re-reads the archive with an independent reader. "
+            "30% of the histories interleave a second EKO (another archive, same evolution points) that is alive at the same time; 30% open read/edit sessions through relative paths and change the working directory in between; durable junk (complete-looking newer <archive>.tmp, truncated .tmp, .bak) is planted next to the archive between sessions; overwrites include bitwise 'twins' (==-equal, different sign of zeros / NaN payloads). "
+            "Short histories are over-sampled; this is sampling, not the bounded-exhaustive enumeration the quantifier mentions."
         ),
         note="Exception types, object identity and iteration order are not part of the oracle; approx queries within 0.1% of the tolerance boundary are not judged.",
         design="DESIGN.md section 3",
@@ -104,7 +108,7 @@ CHECKS = {
         text=(
             "Seeded round trips with operator shapes up to 14x8x14x8, optional error arrays, values containing signed zeros, infinities, subnormals and NaNs with payloads, evolution points given as Python float / int / NumPy float64 (also taken from an array) / NumPy int64, "
             "ulp-apart scales, and randomly varied cards (every enum, orders, schemes, grids). After each close the archive is re-read through eko: evolution-point sets equal, arrays bitwise equal (tobytes), theory/operator cards and metadata NaN-aware equal; "
-            "after an edit session everything not explicitly changed must be preserved."
+            "after an edit session everything not explicitly changed must be preserved, and what was changed (operators - also by bitwise 'twins' of the value already loaded -, metadata through eko.xgrid / eko.update() / the metadata container itself, parts, recipes) must be there."
         ),
         note="Cards are compared through their raw (dict) form, NaN-aware; dataclass == is not used because POLE cards carry nan reference scales.",
         design="DESIGN.md section 3",
@@ -115,7 +119,7 @@ CHECKS = {
         technique=TECH + " (fault-free configuration): seeded sequences of store attempts and harmless operations on read-only and closed EKOs, archive sha256 compared before/after, seam trace scanned for mutating events on the archive",
         text=(
             "Seeded histories put an EKO into read-only, closed-after-write, closed-after-read or mixed state and then issue store attempts (eko[ep]=, operators[]=, parts[]=, parts_matching[]=, load_recipes, recipes[]=, xgrid=, update(), dump()) interleaved with reads, unloads, iteration, approx, dump to another path and repeated close(); "
-            "every store attempt must raise and after every operation and at session end the archive's sha256 and size must be unchanged."
+            "every store attempt must raise - also for headers the inventories already know and for the same refused store repeated - and after every operation and at session end the archive's sha256 and size must be unchanged, also with junk left next to the archive by hard-killed processes (newer complete-looking / truncated <archive>.tmp, .bak) and with writes through the metadata container below the EKO API."
         ),
         note="Only 'raises' is demanded for store attempts, not the exception type; reads/unloads/repeated close need not raise, for them only 'archive bytes unchanged' is demanded.",
         design="DESIGN.md section 3",
